@@ -3,14 +3,18 @@
    S = Spec/StyleSpec.v (computed_spec: by-property cascade and length resolution).
    `styles_along d t chain` is the style map M builds for the element at the head of `chain` (its ancestors follow,
    the region last); C03_snapshot_styles ties it to the snapshot tree.
-   Proved for EVERY document, time, chain: the 25 properties whose computed value is the cascaded value, and
-   tts:fontSize (the reference of every other relative length, incl. the ruby halving rule).
-   Not proved (evaluated on every styled element of the model's and the code's snapshots by harness/c03.py):
-   textDecoration merging, direction, and the 8 other length-bearing properties (extent, origin/position, padding,
-   lineHeight, linePadding, rubyReserve, textOutline, textShadow) — and textEmphasis, which is REFUTED for the
-   faithful model (recorded finding textemphasis-auto-parent-writing-mode). *)
+   Proved for EVERY document, time and ancestor chain, for ALL 36 properties (C03_all_properties): the cascade of the
+   24 plain properties, tts:fontSize (incl. ruby halving), tts:textDecoration (merged per component), tts:direction
+   (writing-mode semantics on regions), tts:writingMode (the region's), tts:extent, tts:origin / tts:position,
+   tts:padding, tts:lineHeight, tts:linePadding, tts:rubyReserve, tts:textOutline, tts:textShadow and tts:textEmphasis
+   (the latter since the repair of _get_writing_mode's use: the region's writing mode is carried down).
+   C03_snapshot_values lifts this to every element of every snapshot `isd d t` (rose-tree induction over _process_element).
+   The only hypothesis beyond the shape of the chain is `td_typed`: the tts:textDecoration values in effect are
+   TextDecoration values (ttconv.model validates this whenever a value is set). *)
 From TT Require Import Model.Doc Gen.StyleTables Model.Isd Spec.IsdSpec Spec.StyleSpec.
 From TT Require Import Proofs.C03.Values Proofs.C03.Cascade Proofs.C03.Chain Proofs.C03.FontSize.
+From TT Require Import Spec.IsdShape.
+From TT Require Import Proofs.C03.Phase Proofs.C03.Inherited Proofs.C03.Geometry Proofs.C03.FontRelative Proofs.C03.All Proofs.C03.Snapshot.
 
 Theorem C03_length_resolution : forall l pct em c px,
   compute_length l pct em c px = match rel l pct em c px with Some r => Ok r | None => Err errCompute end.
@@ -29,6 +33,50 @@ Theorem C03_font_size : forall d t chain st, chain_ok chain = true -> styles_alo
   exists l, sget st p_FontSize = Some (VLen l) /\ font_size d t chain = Some l.
 Proof. exact styles_along_fontsize. Qed.
 
+(* text decoration: each of underline / line-through / overline is the nearest specified component along the chain *)
+Theorem C03_text_decoration : forall d t chain st, chain_ok chain = true -> styles_along d t chain = Ok st ->
+  td_typed d t chain = true -> sget st p_TextDecoration = text_decoration d t chain.
+Proof. exact styles_along_text_decoration. Qed.
+
+(* direction: on a region without tts:direction it follows a specified tts:writingMode lrtb / rltb; inherited below *)
+Theorem C03_direction : forall d t chain st, chain_ok chain = true -> styles_along d t chain = Ok st ->
+  sget st p_Direction = direction d t chain.
+Proof. exact styles_along_direction. Qed.
+
+(* writing mode: while an element is resolved it carries the computed writing mode of its region *)
+Theorem C03_writing_mode : forall d t chain st, chain_ok chain = true -> styles_along d t chain = Ok st ->
+  sget st p_WritingMode = writing_mode d t chain.
+Proof. exact styles_along_writing_mode. Qed.
+
+(* extent: % of the root container, c / px per axis, em of the element's own computed font size *)
+Theorem C03_extent : forall d t chain st, chain_ok chain = true -> styles_along d t chain = Ok st ->
+  exists h w, sget st p_Extent = Some (VExtent h w) /\ extent d t chain = Some (h, w).
+Proof. exact styles_along_extent. Qed.
+
+(* origin and position coincide; a specified position is resolved against (100 - computed extent) and the edges *)
+Theorem C03_origin_position : forall d t chain st, chain_ok chain = true -> styles_along d t chain = Ok st ->
+  exists x y, sget st p_Origin = Some (VCoord x y) /\
+              sget st p_Position = Some (VPos x e_PositionType_HEdge_left y e_PositionType_VEdge_top) /\
+              origin d t chain = Some (x, y).
+Proof. exact styles_along_origin. Qed.
+
+(* padding: % of the computed extent along the axis the region's writing mode gives, em of the own font size *)
+Theorem C03_padding : forall d t chain st, chain_ok chain = true -> styles_along d t chain = Ok st ->
+  sget st p_Padding = padding d t chain.
+Proof. exact styles_along_padding. Qed.
+
+(* lineHeight, linePadding, rubyReserve, textOutline, textShadow, textEmphasis: specified here -> resolved against the
+   element's own computed font size / colour / region writing mode; otherwise the parent's computed value *)
+Theorem C03_font_relative : forall d t p, In p fr_props ->
+  forall chain st, chain_ok chain = true -> styles_along d t chain = Ok st -> sget st p = font_relative_prop d t p chain.
+Proof. exact styles_along_font_relative. Qed.
+
+(* all 36 properties *)
+Theorem C03_all_properties : forall d t chain st p, In p all_props -> chain_ok chain = true ->
+  (p = p_TextDecoration -> td_typed d t chain = true) ->
+  styles_along d t chain = Ok st -> sget st p = computed_spec d t chain p.
+Proof. exact styles_along_all. Qed.
+
 (* the style map of a snapshot element is that map restricted to the properties applicable to its kind *)
 Theorem C03_snapshot_styles : forall d t sel inh par pb pe a cs a' cs',
   proc d t sel inh par pb pe (Elem a cs) = Ok (Some (Elem a' cs')) ->
@@ -36,5 +84,25 @@ Theorem C03_snapshot_styles : forall d t sel inh par pb pe a cs a' cs',
              e_styles a' = strip_inapplicable (e_kind a) st.
 Proof. exact proc_styles. Qed.
 
+(* whole snapshots: every element of every region of a snapshot, other than br and text nodes, carries for every property
+   applicable to its kind the computed value of the source element with its kind and xml:id along its ancestor chain
+   (Spec/StyleSpec.v elem_resolved); styles_wf: regions are regions, the body contains none, br / text have no children *)
+Theorem C03_snapshot_values : forall d t rs, doc_td_typed d t -> styles_wf d = true -> isd d t = Ok rs ->
+  Forall (fun r' => Forall (fun x => elem_resolved d t (eattrs x)) (all_elems r')) rs.
+Proof. exact snapshot_values. Qed.
+
+(* the hypotheses of C03_all_properties are satisfiable *)
+Example C03_hypotheses_satisfiable : chain_ok ex_chain = true /\ td_typed ex_doc 0 ex_chain = true /\
+  exists st, styles_along ex_doc 0 ex_chain = Ok st /\ sget st p_TextDecoration = Some (VTextDec 1 0 0).
+Proof. exact ex_hypotheses. Qed.
+
+Example C03_snapshot_hypotheses_satisfiable : doc_td_typed ex_snap_doc 0 /\ styles_wf ex_snap_doc = true /\
+  exists rs, isd ex_snap_doc 0 = Ok rs /\ rs <> [].
+Proof. exact ex_snap_hypotheses. Qed.
+
 Print Assumptions C03_length_resolution.  Print Assumptions C03_plain_value.  Print Assumptions C03_plain_is_spec.
-Print Assumptions C03_font_size.  Print Assumptions C03_snapshot_styles.
+Print Assumptions C03_font_size.  Print Assumptions C03_text_decoration.  Print Assumptions C03_direction.
+Print Assumptions C03_writing_mode.  Print Assumptions C03_extent.  Print Assumptions C03_origin_position.
+Print Assumptions C03_padding.  Print Assumptions C03_font_relative.  Print Assumptions C03_all_properties.
+Print Assumptions C03_snapshot_styles.  Print Assumptions C03_snapshot_values.  Print Assumptions C03_hypotheses_satisfiable.
+Print Assumptions C03_snapshot_hypotheses_satisfiable.
